@@ -104,8 +104,8 @@ class _DebugLogging:
         return False
 
 
-ENV_MODES = {'O': ['-OO'], 'Werror': [], 'Threads': []}   # Werror: the -W error filter around each run; Threads: sim/duo.py
-ENV_MODE_TEXT = {'O': 'interpreter started with -OO (assert statements and docstrings stripped), OpenSSL without legacy digests', 'Werror': 'warnings raised as errors (-W error) and every logger at DEBUG',
+ENV_MODES = {'O': ['-OO'], 'Werror': ['-X', 'dev'], 'Threads': []}   # Werror: the -W error filter around each run; Threads: sim/duo.py
+ENV_MODE_TEXT = {'O': 'interpreter started with -OO (assert statements and docstrings stripped), OpenSSL without legacy digests', 'Werror': 'Python Development Mode (-X dev), warnings raised as errors (-W error) and every logger at DEBUG',
                  'Threads': 'a second caller thread interleaved at library lines by a seeded scheduler'}
 
 
